@@ -65,6 +65,13 @@ REPROS = [
      "setup": T3 + ["insert into t3 values (2,1),(2,3),(1,1)"],
      "sql": "select d1, d2, count(*) from (select a as d1, count(*) as d2 from t3 group by a) as x group by d1, d2",
      "configs": ["mem.on", "mem.off"]},
+    {"id": "Q13", "properties": ["C02", "C01"],
+     "summary": "an outer aggregate f(x.d1) over a derived table that passes d1 = e through and also computes f(e) "
+                "(count(b) and count(b), min(b) and min(b)): after the derived column is inlined both are the same "
+                "expression node and the outer aggregate returns the inner one's value",
+     "setup": T3 + ["insert into t3 values (1,1),(2,1),(3,2)"],
+     "sql": "select x.d2 as c1, count(x.d1) as c2 from (select b as d1, count(b) as d2 from t3 group by b) as x group by x.d2",
+     "configs": ["mem.on", "mem.off"]},
     {"id": "Q12", "properties": ["C02"],
      "summary": "a CTE referenced more than once is bound once and every reference shares the same column "
                 "identities: in `with d as (..) select .. from d as x join d as y on x.a = y.a` the condition "
